@@ -239,9 +239,20 @@ def run(c, chk):
                     k = sum(t[1] for t in terms if sym.is_const(t))
                     if k <= 0:
                         continue
+                    if leaves_loop(ex, f, h, p):
+                        continue          # arrives at the loop head with values that end the loop: nothing more is read
                     nsteps += 1
                     shown = set()
                     for cn, t, _ in p.assume:
+                        if cn[0] == 'switch-default' and 0 in p.neq.get(cn[1], ()):
+                            # none of the cases, one of which is the terminator
+                            x = cn[1]
+                            while x[0] == 'bin' and x[1] in ('sext', 'zext', 'trunc'):
+                                x = x[2]
+                            pos = flatten(x[1], base) if x[0] == 'ld' else None
+                            if pos is not None:
+                                shown.add(tuple(sorted(repr(sym.norm(y)) for y in pos)))
+                            continue
                         if cn[0] != 'icmp' or cn[1] not in ('eq', 'ne') or not sym.is_const(cn[3]):
                             continue
                         x = cn[2]
@@ -363,6 +374,31 @@ def run(c, chk):
             chk.ok('R11.4', fname, 'passes (opt, index) to %s(), which rejects a NULL option before looking at the index' % callee, nontrivial=False)
         else:
             chk.fail('R11.4', 'caller-shape:%s' % fname, c.where(f), '%s() no longer resolves through cfg_getopt_secidx() + %s()' % (fname, callee))
+
+
+def leaves_loop(ex, f, h, p):
+    """does a path that came back to the loop head carry values with which the loop condition ends the loop (e.g. the state
+    variable of a small automaton was set to a final state)?  Decided by running the head with those values: no path
+    reaches the rest of the body"""
+    body = _cfg.natural_loops(f).get(h, set()) - {h}
+    if not body:
+        return False
+    env = {}
+    for ph in f.blocks[h].phis():
+        nm = f.var_names.get(ph.res, ph.res)
+        v = p.next.get(ph.res, p.next.get(nm))
+        if v is None:
+            return False
+        env[ph.res] = v
+    if not any(sym.is_const(v) for v in env.values()):
+        return False
+    try:
+        for q in ex.explore(f, start=h, env=env, stop=[h], mem=dict(p.mem)):
+            if q.end in ('stop', 'cut'):
+                return False          # another iteration is possible
+    except sym.AnalysisIncomplete:
+        return False
+    return True
 
 
 def step_loop(c, secf):
